@@ -841,13 +841,16 @@ class C01(core.Check):
     level_text = ("Proved in Coq (render_contract_partial, by structural induction, arbitrary depth, every size >= 1, both focus "
                   "values): for trees built from leaves that satisfy the contract themselves, AttrMap / LineBox delegation, "
                   "BoxAdapter, Padding (given / pack / relative width), Filler (pack / given / relative height) Pile (given / "
-                  "pack / weight items), Frame (header / footer, any focus part) and Overlay with a given or relative width "
-                  "(packed / given / relative height), BOX sizing yields exactly the requested columns and rows and FLOW sizing the requested "
+                  "pack / weight items), Frame (header / footer, any focus part), Overlay with a given or relative width "
+                  "(packed / given / relative height), Columns (given / pack / weight columns, box_columns, dividechars, min_width; "
+                  "box columns holding box widgets, the others flow widgets) and therefore LineBox, BOX sizing yields exactly the requested columns and rows and FLOW sizing the requested "
                   "columns and exactly rows() rows, all content rows have the canvas width, the cursor is inside, rows() >= 1 and "
                   "pack((c,)) agrees with rows() - unless the model reports its one explicit marker: a widget was handed a "
                   "size with a component <= 0 (no room; such probes are not judged).  The cursor clause is proved outright since "
-                  "the canvas trimming operations drop a cursor they cut away (aa8a06a).  PARTIAL: Columns (hence LineBox), Overlay "
-                  "with width='pack', clip Padding and all FIXED sizing are modelled, extracted and compared but NOT proved; the full "
+                  "the canvas trimming operations drop a cursor they cut away (aa8a06a).  The Columns width arithmetic is C19's theorem column_widths_total_shape, transferred to "
+                  "this model by a proved equation (column_widths_eq).  PARTIAL: Overlay with width='pack', clip Padding, Columns with a "
+                  "'pack' column holding a FIXED-capable container or a non-box column holding a non-flow widget, and all FIXED sizing "
+                  "are modelled, extracted and compared but NOT proved; the full "
                   "statement (render_contract_full) is refuted in Coq by a witness that replays on the implementation (fixed "
                   "Padding: pack(()) != render(()), known finding).  The leaf contract is a hypothesis (leaves_ok), discharged only by the "
                   "oracle on the real leaves (Text, Edit, Divider, SolidFill, Button, CheckBox, RadioButton, ProgressBar, BigText, "
@@ -869,6 +872,7 @@ class C01(core.Check):
             "least one successful render; distinct by hash of (case, outcome)")
     trusted_base = [
         "Coq 8.16.1 kernel (vm_compute only in closed examples and refutation witnesses)",
+        "C19's Model/Layout.v + Proofs/Layout*.v (imported read-only: column_widths_total_shape) and tools/py2v (Gen/layout_gen.v)",
         "extraction: ExtrOcamlBasic; OCaml 4.13.1; tools/driver/driver.ml",
         "Model/WidgetDims.v: hand-written model of Pile/Columns/Padding/Filler/Overlay/Frame/BoxAdapter/AttrMap and the canvas size laws (validated by the correspondence)",
         "harness/props/c01.py: tree builder, leaf measurement, spy for degenerate sizes / trimmed cursors, oracle",
